@@ -2,6 +2,8 @@
 package c08
 
 import (
+	"io"
+	"errors"
 	"sync"
 	"github.com/libp2p/go-libp2p/core/crypto"
 	"bytes"
@@ -50,6 +52,85 @@ func cidOK(c cid.Cid, data []byte) bool { return bytes.Equal(c.Bytes(), refCID(d
 
 type AddrCase struct {
 	Tok tok.Tok `json:"tok"`
+	// Faults: streaming operations on the same sealed bytes whose reader / writer fails at a drawn point, run
+	// BEFORE the healthy ones. Each fails or reports the right CID; the healthy operations after them report
+	// the right CID as if nothing had happened before.
+	Faults []Fault `json:"faults,omitempty"`
+}
+
+type Fault struct {
+	Op    string `json:"op"`   // read | write
+	Kind  int    `json:"kind"` // read: 0 error at offset, 1 error together with the data ending at offset then EOF, 2 the same then the stream continues, 3 (0, err) once then continues; write: 0 error at offset, 1 short write without error
+	At    int    `json:"at"`   // offset from the END of the sealed bytes (0 = with / after the last byte)
+	Chunk int    `json:"chunk"`
+}
+
+var errInjected = errors.New("verif: injected stream fault")
+
+type faultReader struct {
+	data  []byte
+	off   int
+	at    int
+	kind  int
+	chunk int
+	fired bool
+}
+
+func (r *faultReader) Read(p []byte) (int, error) {
+	if r.fired && r.kind == 0 {
+		return 0, errInjected
+	}
+	if r.fired && r.kind == 1 {
+		return 0, io.EOF
+	}
+	if !r.fired && r.off >= r.at && (r.kind == 0 || r.kind == 3) {
+		r.fired = true
+		return 0, errInjected
+	}
+	if r.off >= len(r.data) {
+		return 0, io.EOF
+	}
+	n := len(p)
+	if r.chunk > 0 && n > r.chunk {
+		n = r.chunk
+	}
+	if n > len(r.data)-r.off {
+		n = len(r.data) - r.off
+	}
+	if !r.fired && r.off < r.at && r.off+n >= r.at {
+		n = r.at - r.off
+		copy(p, r.data[r.off:r.off+n])
+		r.off += n
+		if r.kind == 1 || r.kind == 2 {
+			r.fired = true
+			return n, errInjected
+		}
+		return n, nil
+	}
+	copy(p, r.data[r.off:r.off+n])
+	r.off += n
+	return n, nil
+}
+
+type faultWriter struct {
+	buf  bytes.Buffer
+	at   int
+	kind int
+}
+
+func (w *faultWriter) Write(p []byte) (int, error) {
+	if w.buf.Len()+len(p) <= w.at {
+		return w.buf.Write(p)
+	}
+	n := w.at - w.buf.Len()
+	if n < 0 {
+		n = 0
+	}
+	w.buf.Write(p[:n])
+	if w.kind == 1 {
+		return n, nil
+	}
+	return n, errInjected
 }
 
 func runAddr(c *h.Ctx, ac AddrCase) {
@@ -91,6 +172,43 @@ func runAddr(c *h.Ctx, ac AddrCase) {
 			if !cidOK(id3, written) {
 				c.Fail("C08/address/ToSealedWriter-into-used-buffer", "ToSealedWriter into a buffer already holding %d bytes reported %s; the %d bytes it appended hash to %x", len(prefix), id3, len(written), refCID(written))
 			}
+		}
+	}
+	for _, f := range ac.Faults {
+		at := len(sealed) - f.At
+		if at < 0 {
+			at = 0
+		}
+		switch f.Op {
+		case "read":
+			fr := &faultReader{data: sealed, at: at, kind: f.Kind % 4, chunk: f.Chunk}
+			var got cid.Cid
+			var ferr error
+			if d.Dlg != nil && f.Chunk%2 == 0 {
+				_, got, ferr = delegation.FromSealedReader(fr)
+			} else if d.Dlg == nil && f.Chunk%2 == 0 {
+				_, got, ferr = invocation.FromSealedReader(fr)
+			} else {
+				_, got, ferr = token.FromSealedReader(fr)
+			}
+			c.P.Class(fmt.Sprintf("fault:read/%d:%s", f.Kind%4, map[bool]string{true: "refused", false: "accepted"}[ferr != nil]))
+			if ferr == nil && !cidOK(got, sealed) {
+				c.Fail("C08/address/faulted-reader", "FromSealedReader on a stream with a fault (kind %d, %d bytes from the end) succeeded and reported %s; the sealed bytes hash to %x", f.Kind%4, f.At, got, refCID(sealed))
+			}
+		default:
+			fw := &faultWriter{at: at, kind: f.Kind % 2}
+			got, ferr := tk.ToSealedWriter(fw, priv)
+			c.P.Class(fmt.Sprintf("fault:write/%d:%s", f.Kind%2, map[bool]string{true: "refused", false: "accepted"}[ferr != nil]))
+			if ferr == nil && fw.buf.Len() > 0 && !cidOK(got, fw.buf.Bytes()) && f.Kind%2 == 0 {
+				c.Fail("C08/address/faulted-writer", "ToSealedWriter into a failing writer reported success and %s; the %d bytes that reached the writer hash to %x", got, fw.buf.Len(), refCID(fw.buf.Bytes()))
+			}
+		}
+	}
+	if len(ac.Faults) > 0 {
+		// after the faulted operations: the healthy writer path once more
+		var again bytes.Buffer
+		if id4, err := tk.ToSealedWriter(&again, priv); err == nil && !cidOK(id4, again.Bytes()) {
+			c.Fail("C08/address/ToSealedWriter-after-faulted-stream", "after %d streaming operation(s) that met a fault, ToSealedWriter reported %s for bytes hashing to %x", len(ac.Faults), id4, refCID(again.Bytes()))
 		}
 	}
 	type dec struct {
@@ -203,8 +321,21 @@ func runAddr(c *h.Ctx, ac AddrCase) {
 }
 
 var addrProp = h.Define(P, "address", func(t *rapid.T) AddrCase {
-	return AddrCase{Tok: tok.Gen(t, tok.GenCfg{Algs: keys.AllAlgs, NoTopNull: true, OnlyFuture: true,
+	ac := AddrCase{Tok: tok.Gen(t, tok.GenCfg{Algs: keys.AllAlgs, NoTopNull: true, OnlyFuture: true,
 		Values: val.Cfg{Depth: 2, MaxLen: 3, SafeInts: true, Big: true}})}
+	if rapid.Bool().Draw(t, "faulted") {
+		n := rapid.IntRange(1, 3).Draw(t, "nfaults")
+		for i := 0; i < n; i++ {
+			f := Fault{Op: rapid.SampledFrom([]string{"read", "read", "write"}).Draw(t, "fop"), Kind: rapid.IntRange(0, 3).Draw(t, "fkind"), Chunk: rapid.SampledFrom([]int{0, 1, 7, 64, 4096}).Draw(t, "fchunk")}
+			if rapid.Bool().Draw(t, "fatend") {
+				f.At = rapid.SampledFrom([]int{0, 0, 1, 12, 13}).Draw(t, "fat_end")
+			} else {
+				f.At = rapid.IntRange(0, 600).Draw(t, "fat")
+			}
+			ac.Faults = append(ac.Faults, f)
+		}
+	}
+	return ac
 }, runAddr)
 
 func TestAddress(t *testing.T) { addrProp.Check(t) }
